@@ -66,9 +66,14 @@ type FuncContract struct {
 	Bounded    string
 	Trusted    bool // body not verified although it exists (reason required)
 	TrustedWhy string
+	TrustedFrame bool // modifies clause assumed, body otherwise verified
 	Line       int
 	File       string
 	Replay     []string // replay template lines
+	ReplayChecks []*Clause // oracles evaluated on the real code during a replay only
+	ReplayInputs []*ReplayInput
+	AtReturn []*Clause // obligations at returns over local variables
+	ReplayAssumes []Expr
 	Used       bool
 	ifaceRecv  types.Type
 }
@@ -116,7 +121,18 @@ type ChanInv struct {
 	PkgPath  string
 }
 
+type ReplayInput struct {
+	Param string
+	Call  *ECall
+}
+
+type TypeShape struct {
+	TypeText, Label, Kind, PkgPath string
+	Props                          []string
+}
+
 type ContractSet struct {
+	TypeShapes []*TypeShape
 	ChanInvs []*ChanInv
 	Funcs      map[string]*FuncContract // key: pkgpath + "::" + Key  (externs/ifaces: "::" + Key)
 	GhostVars  map[string]*GhostVar
@@ -381,6 +397,18 @@ func (cs *ContractSet) parseFile(path, pkgPath string) error {
 				return errf("%v", err)
 			}
 			cs.ChanInvs = append(cs.ChanInvs, &ChanInv{TypeText: rest[:i], Label: label, Props: props, Src: body, E: e, PkgPath: pkgPath})
+		case "typeshape":
+			// typeshape <Type> label[props]: json-roundtrip   (structural obligation over a type definition)
+			cur = nil
+			i := strings.Index(rest, " ")
+			if i < 0 {
+				return errf("expected: typeshape <type> label: kind")
+			}
+			label, props, body := splitLabel(strings.TrimSpace(rest[i+1:]))
+			if label == "" {
+				return errf("typeshape needs a label")
+			}
+			cs.TypeShapes = append(cs.TypeShapes, &TypeShape{TypeText: rest[:i], Label: label, Props: props, Kind: strings.TrimSpace(body), PkgPath: pkgPath})
 		case "axiom", "lemma":
 			cur = nil
 			label, props, body := splitLabel(rest)
@@ -471,6 +499,12 @@ func (cs *ContractSet) parseFile(path, pkgPath string) error {
 					return err
 				}
 				cur.AtSend = append(cur.AtSend, c)
+			case "atreturn":
+				c, err := mkClause("atreturn", rest)
+				if err != nil {
+					return err
+				}
+				cur.AtReturn = append(cur.AtReturn, c)
 			case "assumes":
 				c, err := mkClause("assumes", rest)
 				if err != nil {
@@ -522,6 +556,10 @@ func (cs *ContractSet) parseFile(path, pkgPath string) error {
 				cur.NoReturn = true
 			case "pure":
 				cur.Pure = true
+			case "trusted-frame":
+				// the body is verified, but its modifies clause is assumed (stated reason), not checked
+				cur.TrustedFrame = true
+				cur.TrustedWhy = rest
 			case "trusted":
 				cur.Trusted = true
 				cur.TrustedWhy = rest
@@ -529,6 +567,39 @@ func (cs *ContractSet) parseFile(path, pkgPath string) error {
 				cur.Bounded = rest
 			case "replay":
 				cur.Replay = append(cur.Replay, rest)
+				if strings.HasPrefix(rest, "assume ") {
+					// replay assume EXPR: narrows the search for a candidate input (never used in a proof)
+					e, err := parseExpr(strings.TrimSpace(rest[7:]))
+					if err != nil {
+						return errf("replay assume: %v", err)
+					}
+					cur.ReplayAssumes = append(cur.ReplayAssumes, e)
+				}
+				if strings.HasPrefix(rest, "input ") {
+					// replay input PARAM = f(expr, ...): the parameter's value in a replay is computed (in Go) from values
+					// that the model gives to the expressions at the point of the failed obligation
+					eqi := strings.Index(rest, "=")
+					if eqi < 0 {
+						return errf("expected: replay input PARAM = f(args)")
+					}
+					pn := strings.TrimSpace(rest[6:eqi])
+					e, err := parseExpr(strings.TrimSpace(rest[eqi+1:]))
+					if err != nil {
+						return errf("replay input: %v", err)
+					}
+					call, ok := e.(*ECall)
+					if !ok {
+						return errf("replay input needs a function application")
+					}
+					cur.ReplayInputs = append(cur.ReplayInputs, &ReplayInput{Param: pn, Call: call})
+				}
+			case "replaycheck":
+				// evaluated only on the real code during a replay (a test oracle for confirming a failing input); never an obligation, never an assumption
+				c, err := mkClause("replaycheck", rest)
+				if err != nil {
+					return err
+				}
+				cur.ReplayChecks = append(cur.ReplayChecks, c)
 			case "loop":
 				// loop N invariant label: expr
 				fs := strings.SplitN(rest, " ", 3)
